@@ -1,1 +1,3 @@
 //! Shared fixtures of the v_nexus monitors.
+pub mod nx1718;
+pub mod nx1920;
